@@ -143,7 +143,7 @@ func c9Once(c *Ctx) {
 		return
 	}
 	for _, oi := range infos {
-		tn := oi.named.Obj().Pkg().Path() + "." + oi.named.Obj().Name()
+		tn := oi.named.Obj().Pkg().Path() + "." + TNm(oi.named.Obj())
 		// published fields = fields of the struct stored in the closure
 		pub := map[string]bool{}
 		for _, st := range FieldStoresOf(oi.closure, oi.named) {
@@ -599,7 +599,7 @@ func encoderTouches(fn *ssa.Function, seen map[*ssa.Function]bool, depth int) []
 					// user code (sub-encoders, marshalers) given an object the shared encoder holds
 					for ai, a := range args {
 						if _, isPtr := types.Unalias(Strip(a).Type()).Underlying().(*types.Pointer); isPtr && reach(a, 0) && !(ai == 0 && x.Common().IsInvoke()) {
-							if n, _ := types.Unalias(deref(Strip(a).Type())).(*types.Named); n != nil && n.Obj().Pkg() != nil && strings.HasPrefix(n.Obj().Pkg().Path(), "go.uber.org/zap") && n.Obj().Name() != "EncoderConfig" {
+							if n, _ := types.Unalias(deref(Strip(a).Type())).(*types.Named); n != nil && n.Obj().Pkg() != nil && strings.HasPrefix(n.Obj().Pkg().Path(), "go.uber.org/zap") && TNm(n.Obj()) != "EncoderConfig" {
 								bad = append(bad, FNm(fn)+": "+Desc(a)+" (held by the shared encoder) is handed to code that writes into it")
 							}
 						}
